@@ -45,6 +45,11 @@ def _block3_traces(ck, wd, exe, sf, nsys, tier, seed):
         ck.violation({"class": "block3-state-violates-design-invariant"}, {"what": "a state the real solver passed through violates NonNegative / Consistent / Optimal", "tlc": r2.out[-2500:]})
         return nexec
     if r2.rc != 0 or not rep:
+        if ck.violations:
+            # the results were already judged wrong above; a trace of such a run may hold values the trace specification cannot
+            # evaluate - the verdict stands, the trace is reported as drift
+            ck.drift("Trace_Block3 could not evaluate the recorded trace of a run whose results violate the property: " + r2.out[-600:])
+            return nexec
         raise vlib.Infra("Trace_Block3 failed:\n" + r2.out[-2000:])
     best = min(rep, key=lambda r: len(r["deviations"]))
     # A step that Block3.tla does not have means that the code no longer follows the specified algorithm.  That is not by
